@@ -195,7 +195,10 @@ def gen_case(rng, params, index):
         before = rng.sample(comps, nb)
         after = rng.sample([c for c in comps if c not in before], rng.weighted([(7, 0), (3, 1)]))
         scheds.append({"hash_seed": rng.randint(2, 1 << 40), "dirent_seed": rng.randint(2, 1 << 40), "env_pad": rng.randint(0, 4000),
-                       "before": before, "after": after, "dup": rng.chance(0.12), "spell": rng.choice([source, "./" + source])})
+                       "before": before, "after": after, "dup": rng.chance(0.12), "spell": rng.choice([source, "./" + source]),
+                       # what lies at the output paths beforehand (here: the right bytes followed by the tail of a longer earlier
+                       # version) is not an input
+                       "stale_tail": rng.randint(1, 3000) if rng.chance(0.25) else None})
     # whole invocations: the same argv (several sources, two of them faulty) under different seeds must give the same
     # exit status, the same set of files with the same bytes, and the same diagnostics for every file
     bads = []
@@ -266,12 +269,19 @@ def run_case(case, env):
         step = {"op": "GEN", "sources": srcs, "O": "out", "no_dyn": case["no_dyn"], "no_lower": False,
                 "extra_types": [_simtypes() if x == SIMTYPES else x for x in case.get("extra_types", [])],
                 "hash_seed": sc["hash_seed"], "dirent_seed": sc["dirent_seed"], "env_pad": sc["env_pad"]}
-        res = sb.run(step)
-        stats["runs"] += 1
-        stats["sim_steps"]["syscalls_intercepted"] += len(res.calls)
         one = dict(step)
         one["sources"] = [source]
         pred = engine.predicted_outputs(one, sb.root, sb.cwd)
+        if sc.get("stale_tail") and base is not None and base["disp"] == "accepted":
+            for p in sorted(pred):
+                old = base["outs"].get(sb.rel(p))
+                if old is not None:
+                    with open(p, "wb") as f:
+                        f.write(old + old[-(sc["stale_tail"] % max(len(old), 1)) - 1:])
+            _bump(probes, "schedules_over_longer_stale_content_at_the_output_paths")
+        res = sb.run(step)
+        stats["runs"] += 1
+        stats["sim_steps"]["syscalls_intercepted"] += len(res.calls)
         outs = {}
         for p in sorted(pred):
             try:
